@@ -341,12 +341,18 @@ Definition write (o : wopts) (m : mlas) : wres :=
   match vers with
   | None => WErr WKeyError
   | Some v =>
+  (* the written copy of ~Version declares DLM SPACE (the data is written white-space separated) *)
+  let vcopy :=
+    match update_first trv (s2l "DLM") (fun it => set_value it (VStr (s2l "SPACE"))) (s_items (l_version l1)) with
+    | Some r => r
+    | None => s_items (l_version l1)
+    end in
   let vsw :=
     if las_version_eqb v V12 then
-      set_item trv (s2l "VERS") (new_item (s2l "VERS") [] (VFloat (s2l "1.2")) (s2l "CWLS LOG ASCII STANDARD - VERSION 1.2")) (s_items (l_version l1))
+      set_item trv (s2l "VERS") (new_item (s2l "VERS") [] (VFloat (s2l "1.2")) (s2l "CWLS LOG ASCII STANDARD - VERSION 1.2")) vcopy
     else if las_version_eqb v V20 then
-      set_item trv (s2l "VERS") (new_item (s2l "VERS") [] (VFloat (s2l "2.0")) (s2l "CWLS log ASCII Standard -VERSION 2.0")) (s_items (l_version l1))
-    else s_items (l_version l1) in
+      set_item trv (s2l "VERS") (new_item (s2l "VERS") [] (VFloat (s2l "2.0")) (s2l "CWLS log ASCII Standard -VERSION 2.0")) vcopy
+    else vcopy in
   (* 4-5 *)
   match refresh_sss (col_fmt o 0%nat) (mkmlas l1 (m_index_initial m)) with
   | None => WErr WKeyError
